@@ -148,7 +148,13 @@ Example is_directory_without_attribute_ex :
               /\ map pl_kind (spec_plans w_file_dirattr) = [0; 1]) /\
   (exists ps, impl_plans (embed w_dir_noattr) = Ok ps /\ map af_is_directory ps = [false; true]
               /\ map extract_action_path ps = [XFile; XDir]).
-Proof. vm_compute. repeat split; try reflexivity; eexists; repeat split; reflexivity. Qed.
+Proof.
+  split; [vm_compute; reflexivity|]. split; [vm_compute; reflexivity|]. split; [vm_compute; reflexivity|].
+  split; [|split].
+  - eexists. split. { vm_compute. reflexivity. } repeat split; vm_compute; reflexivity.
+  - eexists. split. { vm_compute. reflexivity. } repeat split; vm_compute; reflexivity.
+  - eexists. split. { vm_compute. reflexivity. } repeat split; vm_compute; reflexivity.
+Qed.
 
 (* ---- getinfo ---- *)
 (* every listed name is found, as it stands (first member of that name) and with a slash appended *)
